@@ -1,6 +1,6 @@
 use dashmap::DashMap;
 use std::ffi::c_void;
-use std::sync::atomic::{AtomicUsize, Ordering};
+use std::sync::OnceLock;
 
 /// Simple bean factory.
 #[repr(C)]
@@ -9,13 +9,12 @@ pub struct BeanFactory<'b>(DashMap<&'b str, usize>);
 
 impl BeanFactory<'_> {
     fn get_instance<'i>() -> &'i BeanFactory<'i> {
-        static INSTANCE: AtomicUsize = AtomicUsize::new(0);
-        let mut ret = INSTANCE.load(Ordering::Relaxed);
-        if ret == 0 {
+        // exactly one factory per process, also under concurrent first use
+        static INSTANCE: OnceLock<usize> = OnceLock::new();
+        let ret = *INSTANCE.get_or_init(|| {
             let ptr: &'i mut BeanFactory = Box::leak(Box::default());
-            ret = std::ptr::from_mut(ptr) as usize;
-            INSTANCE.store(ret, Ordering::Relaxed);
-        }
+            std::ptr::from_mut(ptr) as usize
+        });
         unsafe { &*(ret as *mut BeanFactory) }
     }
 
@@ -23,14 +22,11 @@ impl BeanFactory<'_> {
     pub fn init_bean<B>(bean_name: &str, bean: B) {
         let factory = Self::get_instance();
         if factory.0.get(bean_name).is_none() {
-            let bean: &B = Box::leak(Box::new(bean));
-            assert!(factory
+            // the entry API decides atomically which of several concurrent initialisers wins
+            _ = factory
                 .0
-                .insert(
-                    Box::leak(Box::from(bean_name)),
-                    std::ptr::from_ref(bean) as usize,
-                )
-                .is_none());
+                .entry(Box::leak(Box::from(bean_name)))
+                .or_insert_with(|| std::ptr::from_ref::<B>(Box::leak(Box::new(bean))) as usize);
         }
     }
 
@@ -69,17 +65,15 @@ impl BeanFactory<'_> {
     #[must_use]
     pub fn get_or_default<B: Default>(bean_name: &str) -> &B {
         let factory = Self::get_instance();
-        factory.0.get(bean_name).map_or_else(
-            || {
-                let bean: &B = Box::leak(Box::default());
-                _ = factory.0.insert(
-                    Box::leak(Box::from(bean_name)),
-                    std::ptr::from_ref(bean) as usize,
-                );
-                bean
-            },
-            |ptr| unsafe { &*(*ptr as *mut c_void).cast::<B>() },
-        )
+        if let Some(ptr) = factory.0.get(bean_name) {
+            return unsafe { &*(*ptr as *mut c_void).cast::<B>() };
+        }
+        // the entry API decides atomically which of several concurrent first users creates the bean
+        let ptr = *factory
+            .0
+            .entry(Box::leak(Box::from(bean_name)))
+            .or_insert_with(|| std::ptr::from_ref::<B>(Box::leak(Box::default())) as usize);
+        unsafe { &*(ptr as *mut c_void).cast::<B>() }
     }
 
     /// Get the bean by name, create bean if not exists.
@@ -90,16 +84,13 @@ impl BeanFactory<'_> {
     #[allow(clippy::mut_from_ref)]
     pub unsafe fn get_mut_or_default<B: Default>(bean_name: &str) -> &mut B {
         let factory = Self::get_instance();
-        factory.0.get_mut(bean_name).map_or_else(
-            || {
-                let bean: &mut B = Box::leak(Box::default());
-                _ = factory.0.insert(
-                    Box::leak(Box::from(bean_name)),
-                    std::ptr::from_ref(bean) as usize,
-                );
-                bean
-            },
-            |ptr| &mut *(*ptr as *mut c_void).cast::<B>(),
-        )
+        if let Some(ptr) = factory.0.get(bean_name) {
+            return &mut *(*ptr as *mut c_void).cast::<B>();
+        }
+        let ptr = *factory
+            .0
+            .entry(Box::leak(Box::from(bean_name)))
+            .or_insert_with(|| std::ptr::from_ref::<B>(Box::leak(Box::default())) as usize);
+        &mut *(ptr as *mut c_void).cast::<B>()
     }
 }
